@@ -9,6 +9,7 @@ import (
 	"github.com/hashicorp/hcl/v2/hcldec"
 	"github.com/hashicorp/hcl/v2/hclsyntax"
 	"github.com/zclconf/go-cty/cty"
+	"github.com/zclconf/go-cty/cty/convert"
 
 	"verif/harness/core"
 	"verif/harness/dec"
@@ -99,6 +100,11 @@ func Handle(c *core.Check, st core.State) {
 			for _, d := range diags {
 				if strings.HasPrefix(d.Summary, "Unconsistent argument types") {
 					sig += "/after-unify-failure"
+					// the listed finding is about element types that really have no common type; when the
+					// values of the blocks DO unify the failure is a different defect
+					if unifiable(sn, f.Body) {
+						sig += "/but-unifiable"
+					}
 					break
 				}
 			}
@@ -304,4 +310,32 @@ func (u unknownBlocks) Content(schema *hcl.BodySchema) (*hcl.BodyContent, hcl.Di
 func (u unknownBlocks) PartialContent(schema *hcl.BodySchema) (*hcl.BodyContent, hcl.Body, hcl.Diagnostics) {
 	c, rem, d := u.Body.PartialContent(schema)
 	return wrapBlocks(c), unknownBlocks{rem}, d
+}
+
+// unifiable: for a top-level block list / set spec, decode every matching block on its own with
+// the nested spec and report whether the resulting types have a common type (go-cty unification).
+func unifiable(sn *dec.SpecNode, body hcl.Body) bool {
+	if (sn.K != "blocklist" && sn.K != "blockset") || len(sn.Sub) != 1 {
+		return false
+	}
+	ok := false
+	func() {
+		defer func() { recover() }()
+		nested := sn.Sub[0].Build()
+		content, _, _ := body.PartialContent(&hcl.BodySchema{Blocks: []hcl.BlockHeaderSchema{{Type: sn.Name}}})
+		var tys []cty.Type
+		for _, b := range content.Blocks {
+			v, d := hcldec.Decode(b.Body, nested, dec.Ctx())
+			if d.HasErrors() {
+				return
+			}
+			tys = append(tys, v.Type())
+		}
+		if len(tys) < 2 {
+			return
+		}
+		t, _ := convert.UnifyUnsafe(tys)
+		ok = t != cty.NilType && !t.HasDynamicTypes()
+	}()
+	return ok
 }
